@@ -764,6 +764,22 @@ class Interp:
 
     v_starts_with = m_starts_with
 
+    # docs/functions/string_functions.md: min_length()/max_length() "return True if the stringified value is more than or less
+    # than the integer provided". Whether a length exactly equal to the integer passes is not said: not asserted.
+    def _minmax_length(self, n, q, a, want_longer):
+        v = self._present(self.value(a[0]), n[1])
+        k = int(self.value(a[1]))
+        ln = len(str(v))
+        if ln == k:
+            raise Unspecified(f"{n[1]} at exactly the bound")
+        return (ln > k) if want_longer else (ln < k)
+
+    def m_min_length(self, n, q, a):
+        return self._minmax_length(n, q, a, True)
+
+    def m_max_length(self, n, q, a):
+        return self._minmax_length(n, q, a, False)
+
     # math: divide "will return nan when divide by 0 is attempted"; mod "upcasts to float and rounds to the hundredths"
     def v_divide(self, n, q, a):
         ns = self._nums_strict(a)
